@@ -11,7 +11,7 @@ from fractions import Fraction as F
 
 import numpy as np
 
-from mc.util import call, raised, pick_frames
+from mc.util import call, raised, pick_frames, array_args, array_args_unchanged
 from models import gridref as G
 
 ID = "C08"
@@ -53,6 +53,12 @@ def bounds(tier, seed):
 
 
 def cases(tier, seed):
+    """Every fifth case (rotating with the seed) passes region / shape / spacing as numpy arrays and checks that they are untouched."""
+    for i, c in enumerate(_cases(tier, seed)):
+        yield dict(c, args="ndarray") if (i + seed) % 5 == 0 else c
+
+
+def _cases(tier, seed):
     for fr in _frames(tier, seed):
         for spec in SPECS:
             for adjust in ("spacing", "region"):
@@ -176,7 +182,12 @@ def run(case, rec):
         kw["spacing"] = tuple(v * sc for v in sp) if isinstance(sp, list) else sp * sc
     if case["given"]:
         kw["region"] = region
-    got = call(rec, vd.block_split, coords, **kw)
+    if case.get("args") == "ndarray":
+        kw_a, snap = array_args(kw)
+        got = call(rec, vd.block_split, coords, **kw_a)
+        rec.check(array_args_unchanged(kw_a, snap), "block_split modified an argument array: %r -> %r" % ({k: v[0].tolist() for k, v in snap.items()}, {k: kw_a[k].tolist() for k in snap}))
+    else:
+        got = call(rec, vd.block_split, coords, **kw)
     if raised(got):
         rec.check(False, "block_split raised %r" % (got,))
         return
